@@ -256,9 +256,15 @@ def gen_keyed_cases(rng):
     on the disk engine), queried in the shapes where the planner relies on the scan's key order:
     ORDER BY the key (dropped as useless), key ranges pushed into the scan, primary-key joins (merge
     join), GROUP BY the key (sort aggregation)."""
+    taken = []
+
     def keyed(name, nkeys, nparts):
-        ids = rng.sample(range(0, 40), nkeys)
+        # (half of the second table's keys are keys of the first: joins on the key have matched AND unmatched
+        # rows on both sides, in interleaving positions)
+        shared = rng.sample(taken, min(len(taken), nkeys // 2)) if taken else []
+        ids = shared + rng.sample([i for i in range(0, 40) if i not in shared], nkeys - len(shared))
         rng.shuffle(ids)
+        taken.extend(ids)
         out = ["create table %s(id int primary key, v int)" % name]
         for part in range(nparts):
             chunk = ids[part::nparts]
